@@ -254,6 +254,18 @@ func ownCheck(mode string, t reflect.Type, v reflect.Value, doc []byte) string {
 		if err != nil {
 			return "ok"
 		}
+		if mode == "encoder" {
+			// what the Encoder hands to its writer stays intact for the whole Write call, whatever the writer does meanwhile
+			// (a framing writer that itself encodes a header with this package)
+			rw := &reentrantWriter{}
+			json.NewEncoder(rw).Encode(v.Interface())
+			if rw.changed {
+				return "bytes-handed-to-the-writer-changed-during-Write"
+			}
+			if !bytes.Equal(rw.got, out) {
+				return "encoder-output-differs-under-a-reentrant-writer"
+			}
+		}
 		snap := append([]byte{}, out...)
 		churn(uint64(len(out)))
 		json.Marshal(v.Interface()) // the same codec again, into the pooled buffer
@@ -418,4 +430,24 @@ func runC10(h *H) {
 		h.DoRisky("json.own", strconv.Itoa(i), "marshalbig")
 	}
 	h.DoRisky("json.own", "0", "longkeys")
+}
+
+// reentrantWriter calls back into the package while it is being written to, then checks that what it was given is unchanged.
+type reentrantWriter struct {
+	got     []byte
+	changed bool
+}
+
+func (w *reentrantWriter) Write(p []byte) (int, error) {
+	snap := append([]byte{}, p...)
+	for i := 0; i < 3; i++ {
+		json.Marshal(map[string]any{"frame": strings.Repeat("#", len(p)+i), "n": len(p)})
+		var sb bytes.Buffer
+		json.NewEncoder(&sb).Encode([]string{strings.Repeat("%", len(p))})
+	}
+	if !bytes.Equal(p, snap) {
+		w.changed = true
+	}
+	w.got = append(w.got, snap...)
+	return len(p), nil
 }
